@@ -691,7 +691,6 @@ LEVEL_TEXT = ('Machine-checked proof (Coq 8.16.1), for all row lists and all non
               'generated method chains over entity, integer, string and tuple queries by vm_compute; a chain oracle against Python list operations searches for failing inputs.')
 LEVEL_NOTE = ('Trusted: Coq kernel + vm_compute; py2coq translator and source scans; the correspondence harness; list-semantics models of LIMIT/OFFSET, DISTINCT, ORDER BY and the SQL aggregates '
               '(validated against SQLite); PostgreSQL/MySQL/Oracle by documentation only (no server). Partial: first() after distinct() is proved when the ORDER BY keys identify the row; avg is '
-              'an exact (sum, count) pair in the model and compared with the float by cross-multiplication; joins/GROUP BY/prefetch, projecting nests and the KeyError of nesting over a '
-              'keyword-filtered query are covered by the search only.')
+              'an exact (sum, count) pair in the model and compared with the float by cross-multiplication; joins/GROUP BY/prefetch and projecting nests are covered by the search only.')
 TECHNIQUE = 'Coq proof (seg normal form + lia, stable-sort/dedup lemmas) over functions regenerated from source by py2coq; vm_compute correspondence of method chains; exhaustive small-scope chain oracle'
 DESIGN_REF = 'DESIGN.md section 5, C24'
